@@ -924,7 +924,8 @@ class TapeRecorder(object):
         :return: List of output objects
         :rtype: list of Output
         """
-        all_output_keys = [key for key in recording.get_all_keys() if key.startswith('output:') and
+        # Take the keys at once, a worker thread may still be adding interceptions to the recording
+        all_output_keys = [key for key in list(recording.get_all_keys()) if key.startswith('output:') and
                            not key.endswith('result')]
         return [Output(key, (recording.get_data if not direct_access else recording.get_data_direct)(key))
                 for key in all_output_keys]
